@@ -164,22 +164,24 @@ Definition step (line : list Z) (o : wopts) (s : wstate) : stepres :=
     end
   else StDone s.
 
-(* the loop: [inner] counts iterations between two cuts, [outer] counts cuts;
-   both are bounded by the line length + 1 *)
+(* the loop `while (pos < length)`: [scan_loop] runs iterations until a piece is
+   cut (then continues with k), [wrap_loop] counts the cuts; both fuels are
+   bounded by the line length + 2 *)
+Fixpoint scan_loop (line : list Z) (o : wopts) (k : wstate -> stepres) (f2 : nat) (s : wstate) : stepres :=
+  match f2 with
+  | O => StFuel
+  | S f2' =>
+    match step line o s with
+    | StScan s' => scan_loop line o k f2' s'
+    | StCut s' => k s'
+    | r => r
+    end
+  end.
+
 Fixpoint wrap_loop (n : nat) (line : list Z) (o : wopts) (f1 : nat) (s : wstate) : stepres :=
   match f1 with
   | O => StFuel
-  | S f1' =>
-    (fix inner (f2 : nat) (s : wstate) {struct f2} : stepres :=
-       match f2 with
-       | O => StFuel
-       | S f2' =>
-         match step line o s with
-         | StScan s' => inner f2' s'
-         | StCut s' => wrap_loop n line o f1' s'
-         | r => r
-         end
-       end) n s
+  | S f1' => scan_loop line o (wrap_loop n line o f1') n s
   end.
 
 Definition init_state (o : wopts) : wstate :=
